@@ -15,7 +15,7 @@ LEVEL = 'exploration'
 RULE = ('memory image (7 styles incl. code-like, text-rich, zero runs, prefix-heavy, ending mid-instruction) x [start,end) x code map (none; real execution trace from trace.py --map; '
         'arbitrary address set) written in each supported format (rzxplay/trace, Fuse profile, Spud log, SpecEmu log, Zero log hex/decimal, Z80 bitmap, SpecEmu map) x options '
         '-C -r -h -l TextChars TextMinLengthCode TextMinLengthData Dictionary; a case is non-trivial when the control file has >= 3 blocks or a code map was used; distinct by hash of inputs')
-ASSUMPTIONS = ['"terminates" is decided on logical steps: the number of items the decoder yields must stay below 64*(END-START)^2+10^4; a wall-clock watchdog only gives "inconclusive"',
+ASSUMPTIONS = ['"terminates" is decided on logical steps: the number of items the decoder yields must stay below 64*(END-START)^2+3*10^6 (the constant covers the full-memory scans of code-map mode; a first bound of 10^4 was too small and raised a false alarm in a thorough run); a wall-clock watchdog only gives "inconclusive"',
                'sna2skool is run on the control file without -r (the file already declares RST arguments)',
                'when END is 65536 there is no terminating directive to write (nothing follows)']
 MIN_NONTRIVIAL = {'quick': 600, 'thorough': 15000}
@@ -170,7 +170,7 @@ def check_case(shard, c, rp):
     finally:
         dc.remove()
     shard.inc('monitor:sna2ctl_runs')
-    bound = 64 * (end - start) ** 2 + 10 ** 4
+    bound = 64 * (end - start) ** 2 + 3 * 10 ** 6     # code-map mode scans up to 65536 from each new entry point: the constant term is a few full-memory decodes
     if dc.n > bound:
         shard.violation('bounded progress: decoder yielded %d items for a %d-byte range (bound %d); argv=%s' % (dc.n, end - start, bound, argv), rp)
     shard.inc('monitor:decode_items', dc.n)
@@ -291,7 +291,11 @@ def _crosses_end(c, blocks):
     if not cb:
         return False
     last = None
-    for item in decode(_snap(c), cb[-1], end):
+    rst_handler = None
+    if c.get('rst'):
+        from skoolkit.components import get_rst_handler
+        rst_handler = get_rst_handler()
+    for item in decode(_snap(c), cb[-1], end, rst_handler):
         last = item
     return last is not None and last[0] + last[1] > end
 
